@@ -39,6 +39,9 @@ HISTORIES = [
     ("ins:checkpoint#2", "ins", "dump", 2, {}),
     ("ins:checkpoint#2,save_existing", "ins", "dump", 2, {"save_existing_checkpoint": True}),
     ("ins:checkpoint#3,save_existing", "ins", "dump", 3, {"save_existing_checkpoint": True}),
+    # late histories: more than ten levels on disk (level_10 sorts before level_2)
+    ("ins:checkpoint#12,late", "ins", "dump", 12, {"max_iteration": 14, "min_iteration": 14}),
+    ("ins:weights#12,late", "ins", "weights", 12, {"max_iteration": 14, "min_iteration": 14}),
     ("ins:weights#1", "ins", "weights", 1, {}),
     ("ins:weights#2", "ins", "weights", 2, {}),
 ]
@@ -385,7 +388,7 @@ def run(ctx):
     step = 256 if ctx.quick else 16
     hists = HISTORIES if not ctx.quick else [h for h in HISTORIES if h[0] not in ("std:weights#3", "ins:checkpoint#3,save_existing")]
     total_classes = 0
-    for it, res in ctx.pmap(history_worker, [(h, ctx.seed, step) for h in hists]):
+    for it, res in ctx.pmap(history_worker, [(h, ctx.seed, step if "late" not in h[0] else 10**7) for h in hists]):
         if res.get("harness"):
             raise RuntimeError(f"recording failed: {res['errs']}")
         ctx.count("evaluations", res["n"])
